@@ -62,7 +62,8 @@ def oracle_legal(req, reply):
     if req["k"] != "gen" or "err" in reply or req["gen"]["type"] == "comp":
         return None
     prev = reply["start_row"]
-    stage = reply["stage"]
+    # (the stage that was asked for: the bells above it are covers whatever the generator thinks its stage is)
+    stage = req["gen"].get("stage") or reply["stage"]
     ops = [c for c in req["ops"]]
     rows = rows_of(reply)
     ri = 0
@@ -92,7 +93,17 @@ def consistent(stage, places):
 
 
 class RowGenProp(Prop):
+    via_cli_share = 0.3
+
     def impl(self, req):
+        if req.get("k") == "gen" and not req["gen"].get("via_json") and req["gen"].get("type") != "comp":
+            # a share of the generators is built by the real `main(argv)` from the command-line spelling of
+            # the specification (option wiring, argparse defaults, title and call-definition parsing)
+            import hashlib
+            import json
+            h = int(hashlib.sha1(json.dumps(req["gen"], sort_keys=True, default=str).encode()).hexdigest()[:8], 16)
+            if (h % 1000) / 1000.0 < self.via_cli_share:
+                return implrun.run(dict(req, gen=dict(req["gen"], via_cli=True)))
         return implrun.run(req)
 
     def compare(self, req, ir, mr):
